@@ -116,7 +116,7 @@ def shard_main(inp, outp):
     try:
         import resource
 
-        lim = int(os.environ.get("VERIF_SHARD_AS_LIMIT", 8 << 30))
+        lim = int(os.environ.get("VERIF_SHARD_AS_LIMIT", 2 << 30))
         resource.setrlimit(resource.RLIMIT_AS, (lim, lim))
     except (ImportError, ValueError, OSError):
         pass
